@@ -306,7 +306,7 @@ def unfold_hint(ip, args, kw):
 
 
 # ------------------------------------------------------------------ havoc
-def havoc_cell(ip, loc, name, kind=None):
+def havoc_cell(ip, loc, name, kind=None, shallow=False):
     c = ip.st.cell(loc)
     k = c['k']
     if k == 'list' and 'items' in c and kind is not None:
@@ -338,7 +338,8 @@ def havoc_cell(ip, loc, name, kind=None):
         for fn_, v in c['f'].items():
             kk = kind_of(v)
             if isinstance(v, Loc):
-                havoc_cell(ip, v, name + "_" + fn_)
+                if not shallow:
+                    havoc_cell(ip, v, name + "_" + fn_)
                 f[fn_] = v
             elif kk is not None:
                 f[fn_] = fresh(name + "_" + fn_, kk)
@@ -650,6 +651,8 @@ def apply_contract(ip, c, f, args, kw):
     st = ip.st
     env = bind_for_contract(ip, c, f, args, kw)
     values = dict(env)
+    for real_, alias_ in getattr(c, 'param_alias', {}).items():
+        values[alias_] = env[real_]
     st.ghost.setdefault('contracts_used', set()).add(c.target)
     # precondition
     if c.requires is not None:
@@ -659,6 +662,7 @@ def apply_contract(ip, c, f, args, kw):
             st.oblige('call-pre', "%s<-%s.%d" % (c.target, ip.frames[-1].qual if ip.frames else '?', i), z)
             st.assume(z)
     old_heap = {k: dict(v) for k, v in st.heap.items()}
+    guard_z = {nm_: ip.zbool(eval_cfn(ip, g_, values)) for nm_, g_ in c.guards.items()}
     # exceptional outcomes
     for (exc, when, iff) in c.raises:
         if when is None:
@@ -667,22 +671,33 @@ def apply_contract(ip, c, f, args, kw):
                 raise PyRaise(exc, (), "from contract of " + c.target)
         else:
             w = ip.zbool(eval_cfn(ip, when, values))
+            if not iff:
+                # the callee may raise only when `when` holds, but need not
+                w = z3.And(w, fresh('may_raise_' + exc.__name__, 'bool').e)
+            elif iff == 'must':
+                # the callee raises whenever `when` holds, and may otherwise
+                w = z3.Or(w, fresh('may_raise_' + exc.__name__, 'bool').e)
             if st.branch(w, "%s raises %s" % (c.target, exc.__name__)):
                 raise PyRaise(exc, (), "from contract of " + c.target)
     # frame: havoc what the callee may assign
     for nm in c.assigns:
-        v = env.get(nm)
+        only_ = nm.endswith('!')
+        nm_ = nm.rstrip('!')
+        v = values.get(nm_.split('.')[0])
+        for attr_ in nm_.split('.')[1:]:
+            v = ip.getattr(v, attr_)
         if not isinstance(v, Loc):
             raise Unsupported("contract %s assigns '%s' which is not a heap object here" % (c.target, nm))
-        havoc_cell(ip, v, nm)
+        havoc_cell(ip, v, nm_.replace('.', '_'), shallow=only_)
     result = None
     if c.returns is not None:
         result = c.returns.symbolic(ip, "ret_" + c.name)
     values['result'] = result
     for name, ens in c.ensures:
+        gz = guard_z.get(name)
         pv = eval_cfn(ip, ens, values, old_heap)
         for cl in clauses(pv):
-            st.assume(ip.zbool(cl))
+            st.assume(ip.zbool(cl) if gz is None else z3.Implies(gz, ip.zbool(cl)))
     return result
 
 
